@@ -19,7 +19,7 @@ CLAIMED = {
         text="Decides the data side of C04 on /repo's current source for all four emitters: every state-id hole carries the module's array base exactly once and id holes none, table builders receive the module's own base, "
         "each `[k]=v` cell takes key and value from the same row, the getters build rows from the fields the property names (literal, description, target, fallback level, source state, decreasing-length ids, one shared command-id set), "
         "every field a shared-shape function prints is compared by isomorphic_to and chunk_by never groups without it, generated function names are defined as called and the registration line names the command and the entry function, "
-        "tables and the code reading them are emitted under the same flags. It does NOT decide that the tables equal the automaton value by value, nor the reader logic of the fish/zsh/pwsh skeletons.",
+        "tables and the code reading them are emitted under the same flags, and literal / description text reaches a table only through the module's string-constant encoder (shared with C07). It does NOT decide that the tables equal the automaton value by value, nor the reader logic of the fish/zsh/pwsh skeletons.",
         note="trusted: rustc's checks; syn's parse; the syntactic type inference treats unknown types as unknown; type aliases StateId/LiteralId/CommandId carry the dimensions",
         design="5/C04",
     ),
@@ -32,7 +32,7 @@ CLAIMED = {
     ),
     "C09": dict(
         technique="static analysis: identity-field analysis of the alphabet type (derive lists vs matched word), key-coarsening rule on table builders, type-level NoSpan witness",
-        text="Decides which fields take part in the symbol equality used by the subset construction and whether each extra field is covered by a rejecting validation; reports every table that re-keys transitions by a lossy projection; shows spans cannot be part of symbol identity. "
+        text="Decides which fields take part in the symbol equality used by the subset construction and whether each extra field is covered by a rejecting validation; reports every table that re-keys transitions by a lossy projection; shows spans cannot be part of symbol identity; no pass edits an arena node in place (definition bodies are shared between references, a level is per occurrence). "
         "Two design-level defects are open known findings (fallback level in identity; structural interning of within-word automata); a new identity field or projection is reported as a new violation. Does not decide the `||`/`|` equivalence over all grammars.",
         note="trusted: derive(PartialEq, Eq, Hash) semantics; rustc's trait solver for the witness; the table of 'which field is the matched word' in props/c09.py",
         design="5/C09",
@@ -126,7 +126,7 @@ CLAIMED = {
         technique="static analysis: syn syntax-tree rules (traversal completeness, rebuild-preserves incl. stale children, translation table, field-flow provenance, pass order, post-order of the expansion order) + MIR scan for in-place edits of the shared expression arenas (with positive control)",
         text="Decides the shape-visible necessary conditions of C02 on /repo's current source (every pass descends into every child; rebuilt nodes keep their labels; "
         "each Expr variant is translated to the regex shape its meaning requires; literal/description/|| index/command flow unchanged into the automaton alphabet; "
-        "passes applied in order to the expression and every definition; definitions expanded in dependency (post-)order; shared arena nodes never edited in place). It does NOT decide language equivalence of the Glushkov/subset construction; breaking any decided clause breaks the property, "
+        "passes applied in order to the expression and every definition; definitions expanded in dependency (post-)order; shared arena nodes never edited in place; the firstpos / lastpos / followpos scans of a concatenation stop at the child whose own nullability was tested). It does NOT decide language equivalence of the Glushkov/subset construction; breaking any decided clause breaks the property, "
         "but the clauses holding does not prove it.",
         note="trusted: rustc's own checks (exhaustive matches, types); tables/tree.toml (allowed drops confirmed by reading); syn's parse of the source",
         design="5/C02",
